@@ -68,6 +68,8 @@ def families(tier, seed):
     out.append(dict(name='partial cubes', run=co.partial_cube_check(4), label='bounded'))
     for be in ('cudd', 'autoref'):
         out.append(dict(name=f'enumeration on variables of 11 and 12 bits [{be}]', run=co.wide_enumeration(be), label='bounded'))
+    from contracts import optdiff as _od
+    out.append(dict(name='same results with assert statements stripped (python -O), section C07', run=_od.family('C07'), label='bounded'))
     return out
 
 
